@@ -161,6 +161,26 @@ def c12(scn, obs):
             if o['run_arg']:
                 bad.append(('run-arg-not-withdrawn', 'run arguments still in the context at on_finished'))
             phase = 'finished'
+    # a plugin registered / unregistered between hook calls receives exactly the hook calls made
+    # while it was registered (compared with what the always-registered plugin saw)
+    tags = {o['plugin'] for o in obs if o.get('k') in ('registered',)}
+    for tag in tags:
+        inside = False
+        want, got = [], []
+        for o in obs:
+            if o.get('k') == 'registered' and o['plugin'] == tag:
+                inside = True
+            elif o.get('k') == 'unregistered' and o['plugin'] == tag:
+                inside = False
+            elif o.get('k') == 'hook' and inside:
+                want.append(o['hook'])
+            elif o.get('k') == 'hook2' and o.get('plugin') == tag:
+                got.append(o['hook'])
+                if not inside:
+                    bad.append(('hook-to-unregistered-plugin', f'plugin {tag} received {o["hook"]} while not registered'))
+        if sorted(want) != sorted(got):
+            miss = [h for h in want if h not in got]
+            bad.append(('registered-plugin-missed-hooks', f'plugin {tag} registered between runs received {len(got)} of the {len(want)} hook calls made while it was registered (e.g. missing {miss[:3]})'))
     # completeness: a run that was started and whose child has ended must be closed out
     endobs = next((o for o in obs if o.get('k') == 'end'), None)
     if endobs is not None and phase in ('started', 'ended') and not endobs.get('pids_alive') and scn.get('meta', {}).get('expect_complete', True):
